@@ -1969,6 +1969,8 @@ class TestGraph(object):
                 object_vm,
                 object_image,
             )
+            # the failed first step is a failed try of the actual root node and has to count as such
+            test_node.results += pre_node.results[len(test_node.results) :]
             return status
 
         logging.info("Installing virtual machine %s", test_object.suffix)
